@@ -1400,6 +1400,16 @@ class Vmap(Generic[X, R], GFI[X, R]):
     axis_name: Const[str | None]
     spmd_axis_name: Const[str | None]
 
+    def _callee_in_axes(self, args) -> tuple:
+        """The callee's in_axes as a tuple with one entry per argument (jax.vmap's int, list
+        and None forms are normalised so that a prefix can be prepended)."""
+        in_axes = self.in_axes.value
+        if in_axes is None:
+            return (None,) * len(args)
+        if isinstance(in_axes, int):
+            return (in_axes,) * len(args)
+        return tuple(in_axes)
+
     def simulate(
         self,
         *args,
@@ -1419,10 +1429,7 @@ class Vmap(Generic[X, R], GFI[X, R]):
         *args,
         **kwargs,
     ) -> tuple[Trace[X, R], Weight]:
-        if self.in_axes.value is None:
-            in_axes = (0,) + (None,) * len(args)
-        else:
-            in_axes = (0,) + self.in_axes.value
+        in_axes = (0,) + self._callee_in_axes(args)
         tr, w = modular_vmap(
             self.gen_fn.generate,
             in_axes=in_axes,
@@ -1438,10 +1445,7 @@ class Vmap(Generic[X, R], GFI[X, R]):
         *args,
         **kwargs,
     ) -> tuple[Density, R]:
-        if self.in_axes.value is None:
-            in_axes = (0,) + (None,) * len(args)
-        else:
-            in_axes = (0,) + self.in_axes.value
+        in_axes = (0,) + self._callee_in_axes(args)
         density, retval = modular_vmap(
             self.gen_fn.assess,
             in_axes=in_axes,
@@ -1458,10 +1462,7 @@ class Vmap(Generic[X, R], GFI[X, R]):
         *args,
         **kwargs,
     ) -> tuple[Trace[X, R], Weight, X | None]:
-        if self.in_axes.value is None:
-            in_axes = (0, 0) + (None,) * len(args)
-        else:
-            in_axes = (0, 0) + self.in_axes.value
+        in_axes = (0, 0) + self._callee_in_axes(args)
         new_tr, w, discard = modular_vmap(
             self.gen_fn.update,
             in_axes=in_axes,
@@ -1478,10 +1479,7 @@ class Vmap(Generic[X, R], GFI[X, R]):
         *args,
         **kwargs,
     ) -> tuple[Trace[X, R], Weight, X | None]:
-        if self.in_axes.value is None:
-            in_axes = (0, None) + (None,) * len(args)
-        else:
-            in_axes = (0, None) + self.in_axes.value
+        in_axes = (0, None) + self._callee_in_axes(args)
         new_tr, w, discard = modular_vmap(
             self.gen_fn.regenerate,
             in_axes=in_axes,
